@@ -1,7 +1,7 @@
 """Unit `extractfn` (C20, extract-function half): the text splices of extract_single_expr and extract_exprs
 (src/extract_function.rs): given the spans the AST search found (the top-level item and the selected expression or
 run of expressions) and the free variables, the result is the source with the text of the new function and a newline
-inserted before the item, and the selection replaced by `NAME(<the free variables, comma separated>)`; every other
+inserted before the item, and the selection replaced by `NAME(<the free variables, comma separated>)` (in braces when it replaces an `else if`); every other
 character is kept.  The free-variable analysis is unit `freevars`; that the new program behaves the same is checked
 on a corpus only (freevars.bounded[extract_function_corpus])."""
 import os
@@ -96,6 +96,7 @@ def build(tier):
         # R9h: `format!("{name}({arguments_src})")` is NAME ( ARGS )
         rw.simple("R9h", r"result\.push_str\(&format!\(\"\{name\}\(\{arguments_src\}\)\"\)\);",
                   'vS_push_str(&mut result, name); vS_push_str(&mut result, "("); vS_push_str(&mut result, vS_as_str(&arguments_src)); vS_push_str(&mut result, ")");'),
+        rw.simple("R2", r"result\.push_str\((\"[^\"]*\")\);", r"vS_push_str(&mut result, \1);"),
         rw.simple("R7", r"result\.push_str\(\s*&src\[\.\.([\w\.]+)\],?\s*\);", r"vS_push_str(&mut result, vt_slice(src, 0, \1));"),
         rw.simple("R7", r"result\.push_str\(\s*&src\[([\w\.]+)\.\.([\w\.]+)\],?\s*\);", r"vS_push_str(&mut result, vt_slice(src, \1, \2));"),
         rw.simple("R7", r"result\.push_str\(\s*&src\[([\w\.]+)\.\.\],?\s*\);", r"vS_push_str(&mut result, vt_slice_from(src, \1));"),
@@ -103,7 +104,8 @@ def build(tier):
     cb = lambda x: "is_cbt(src@, %s as int)" % x
     ci = lambda x: "cix(src@, %s as int)" % x
 
-    def splice(within, sig, I0, I1, S0, S1, ret_ty, extra_params):
+    def splice(within, sig, I0, I1, S0, S1, ret_ty, braces):
+        lb, rb = (('(if needs_braces { "{ "@ } else { Seq::<char>::empty() }) + ', ' + (if needs_braces { " }"@ } else { Seq::<char>::empty() })') if braces else ("", ""))
         pts = (I0, I1, S0, S1)
         u.add_range_fn(XF, within, "result.push_str(&src[..item_pos.start_offset]);", "result.push_str(&src[item_pos.end_offset..]);",
                        sig=sig, prefix="    let mut result = vS_new();\n", suffix="\n    result", rules=RULES,
@@ -112,8 +114,8 @@ def build(tier):
                                      ("on_boundaries", ", ".join(cb(x) for x in pts))],
                            ensures=[("new_function_before_the_item_and_a_call_in_place_of_the_selection",
                                      "result@ == src@.subrange(0, %s) + fun_src(src@, name@, %s, %s, %s, params@) + \"\\n\"@ + src@.subrange(%s, %s)"
-                                     " + name@ + \"(\"@ + joined_names(params@) + \")\"@ + src@.subrange(%s, src@.len() as int)"
-                                     % (ci(I0), ret_ty, S0, S1, ci(I0), ci(S0), ci(S1)))],
+                                     " + %sname@ + \"(\"@ + joined_names(params@) + \")\"@%s + src@.subrange(%s, src@.len() as int)"
+                                     % (ci(I0), ret_ty, S0, S1, ci(I0), ci(S0), lb, rb, ci(S1)))],
                            body_prelude="proof { lemma_cix(src@, 0); lemma_off_zero(src@); lemma_cix(src@, src@.len() as int);\n"
                                         + "".join("    lemma_cix_props(src@, %s as int);\n" % x for x in pts)
                                         + "    if %s > %s { lemma_off_mono(src@, %s, %s); } if %s > %s { lemma_off_mono(src@, %s, %s); } if %s > %s { lemma_off_mono(src@, %s, %s); } }"
@@ -121,11 +123,11 @@ def build(tier):
                            ret="result", props=c20))
 
     splice("extract_single_expr",
-           "pub fn extract_single_splice(src: &str, name: &str, id_to_ty: &TyMap, expr_id: SyntaxId, item_pos: &Position, expr: &ExprView, params: Vec<(SymbolName, Option<Type>)>) -> (result: String)",
-           "item_pos.start_offset", "item_pos.end_offset", "expr.position.start_offset", "expr.position.end_offset", "ty_of(*id_to_ty, expr_id)", None)
+           "pub fn extract_single_splice(src: &str, name: &str, id_to_ty: &TyMap, expr_id: SyntaxId, item_pos: &Position, expr: &ExprView, params: Vec<(SymbolName, Option<Type>)>, needs_braces: bool) -> (result: String)",
+           "item_pos.start_offset", "item_pos.end_offset", "expr.position.start_offset", "expr.position.end_offset", "ty_of(*id_to_ty, expr_id)", True)
     splice("extract_exprs",
            "pub fn extract_exprs_splice(src: &str, name: &str, return_ty: Option<&Type>, item_pos: &Position, body_start: usize, body_end: usize, params: Vec<(SymbolName, Option<Type>)>) -> (result: String)",
-           "item_pos.start_offset", "item_pos.end_offset", "body_start", "body_end", "opt_ty(return_ty)", None)
+           "item_pos.start_offset", "item_pos.end_offset", "body_start", "body_end", "opt_ty(return_ty)", False)
     u.add_canary_proof()
     u.raw(common.FOOTER)
     return u
